@@ -443,6 +443,74 @@ func check(prop string, r *Run, pre, post *Snap, st StepObs, broken map[int]bool
 		return checkC24(r, pre, post, st, broken)
 	case "C09":
 		return checkC09(r, pre, post, st, broken)
+	case "C04":
+		return checkC04(r, pre, post, st, broken)
+	}
+	return "", ""
+}
+
+// validFreeMarker: the marker of a free_allocation_request is one its assigner really issued and that
+// may still be redeemed - decided from the engine's knowledge and the state before the transaction,
+// not from the contract's verdict.
+func validFreeMarker(pre *Snap, op Op) (grant uint64, ok bool) {
+	rec := op.C
+	if rec == 0 {
+		rec = op.S
+	}
+	pa := pre.Ass[refAssigner+op.B]
+	if rec != op.S || pa == nil || op.X&xBadSig != 0 {
+		return 0, false
+	}
+	for _, n := range pa.Nonces {
+		if n == op.N {
+			return 0, false
+		}
+	}
+	grant, ok = parseZCN(op.F)
+	if !ok || grant > pa.Indiv || pa.Redeemed+grant < grant || pa.Redeemed+grant > pa.Total {
+		return 0, false
+	}
+	return grant, true
+}
+
+// C04 (what the real storage contract queues): in an applied transaction every transfer takes tokens
+// from the transaction's sender (in total at most txn.Value), from the contract's own wallet, or - only
+// for free_allocation_request under a valid assigner marker - from the configured owner wallet (in
+// total at most the grant). Transfers are the ones the real contract queued through AddTransfer.
+func checkC04(r *Run, pre, post *Snap, st StepObs, broken map[int]bool) (string, string) {
+	if !st.OK || broken[-4] {
+		return "", ""
+	}
+	fail := func(k, d string) (string, string) { broken[-4] = true; return k, d }
+	scID := refKey(refSC).ID
+	fromSender, fromOwner := new(big.Int), new(big.Int)
+	grant, marker := uint64(0), false
+	if st.Func == "free_allocation_request" && st.Op.K == "freealloc" {
+		grant, marker = validFreeMarker(pre, st.Op)
+	}
+	for _, t := range st.Transfers {
+		if t.Amount == 0 {
+			continue
+		}
+		amt := new(big.Int).SetUint64(t.Amount)
+		switch {
+		case t.From == st.Sender:
+			fromSender.Add(fromSender, amt)
+		case t.From == scID:
+		case marker && t.From == r.W.Owner:
+			fromOwner.Add(fromOwner, amt)
+		default:
+			return fail("contract-debits-unauthorised-account:"+st.Func,
+				fmt.Sprintf("%s sent by %d queued a transfer of %d out of account %d (neither the sender, nor the contract wallet, nor a valid free-storage grant)",
+					st.Func, r.ref(st.Sender), t.Amount, r.ref(t.From)))
+		}
+	}
+	if fromSender.Cmp(new(big.Int).SetUint64(st.Value)) > 0 {
+		return fail("contract-debits-sender-above-value:"+st.Func,
+			fmt.Sprintf("%s queued %s out of the sender, transaction value %d", st.Func, fromSender, st.Value))
+	}
+	if fromOwner.Cmp(new(big.Int).SetUint64(grant)) > 0 {
+		return fail("free-grant-above-marker:"+st.Func, fmt.Sprintf("owner wallet debited by %s, marker grants %d", fromOwner, grant))
 	}
 	return "", ""
 }
